@@ -40,7 +40,10 @@ META = {
             "overflow ignored (needs 2^32767 items).",
 }
 
-RULE = ("two-communicator / two-container dimension: a quarter of the multi-rank cases run the same script (same function, same template "
+RULE = ("special inputs: all_find of items never passed to any union (on empty and non-empty containers; answer = the item itself, a singleton "
+        "(0,item) is created: size/num_sets/for_all/later unions see it), self-loops through async_union and async_union_and_execute on items "
+        "occurring in no other edge (item created, nothing merged, no callback; size()/num_sets() are read BEFORE the dump visitor could create "
+        "it), disjoint_set<std::string> in every sixth case. two-communicator / two-container dimension: a quarter of the multi-rank cases run the same script (same function, same template "
         "instantiations) on sub-communicators of another size built with MPI_Comm_split (parity of the rank, last rank vs. the rest, or one per node) BEFORE the world "
         "run (some: after), each colour group judged by the same oracle on its fewer ranks; every fifth case keeps a second disjoint_set<int64_t> "
         "alive on the same communicator with its own script interleaved token by token, each container judged independently against its own oracle and "
@@ -106,7 +109,7 @@ FAMILIES = ["sparse", "chain", "clique", "star", "dups", "pairs-then-join"]
 
 
 def gen_script(rnd, nranks, big):
-    """returns dict(tokens, steps, ...).  steps: ("ops", [(kind, rank|'*', a, b)]), ("dump", id), ("find", id, mode),
+    """returns dict(tokens, steps, ...).  steps: ("ops", [(kind, rank|'*', a, b)]), ("dump", id), ("find", id, mode, extras),
     ("forall", id), ("clear", k).  A script has 1..3 segments separated by clear(); the last batch of unions before a
     clear() is usually NOT followed by any barrier-containing call: clear() itself has to complete it, and nothing of it may
     survive into the next segment, which reuses the same items."""
@@ -118,8 +121,40 @@ def gen_script(rnd, nranks, big):
     toks, steps = [], []
     did = 0
     fam_used = []
+    fresh_next = [max(universe) + 1]
+
+    def fresh(k):
+        """k items that occur nowhere else in the script so far"""
+        out = []
+        for _ in range(k):
+            fresh_next[0] += rnd.choice([1, 1, 2, 5, 97])
+            out.append(fresh_next[0])
+        return out
+
+    def find_step(pool):
+        """all_find, for half of them also of items that were never passed to any union (the container must answer the item
+        itself and create a singleton); then size/num_sets, a dump, sometimes for_all.  Returns the never-unioned items."""
+        nonlocal did
+        mode = rnd.choice(["a", "s", "e"])
+        extras = fresh(rnd.choice([1, 2, 3])) if rnd.random() < 0.5 else []
+        toks.append(f"F:{did}:{mode}" + ((":" + ",".join(map(str, extras))) if extras else ""))
+        toks.extend([f"N:{did}", f"D:{did}"])
+        steps.append(("find", did, mode, extras))
+        steps.append(("dump", did))
+        did += 1
+        if extras and rnd.random() < 0.4:
+            toks.extend([f"A:{did}", f"N:{did}", f"D:{did}"])
+            steps.append(("forall", did))
+            steps.append(("dump", did))
+            did += 1
+        pool.extend(extras)
+        return extras
+
     for seg in range(nseg):
         last_seg = seg == nseg - 1
+        pool = []      # items created by all_find in this segment: later unions of the segment involve them
+        if rnd.random() < 0.12:
+            find_step(pool)      # all_find on an empty container
         if nseg == 1:
             nep = rnd.choice([1, 2, 2, 3]) if kindmode != "u-then-x" else rnd.choice([2, 3])
         else:
@@ -131,6 +166,15 @@ def gen_script(rnd, nranks, big):
             E = gen_edges(rnd, fam, sub)
             if not E:
                 E = [(sub[0], sub[-1])]
+            for z in pool:       # further unions involving the items all_find created
+                if rnd.random() < 0.7:
+                    E.insert(rnd.randrange(len(E) + 1), (z, rnd.choice(sub)) if rnd.random() < 0.5 else (rnd.choice(sub), z))
+            if rnd.random() < 0.3:
+                # self-loops on items that occur in no other edge: the union (either kind) must create the item, merge
+                # nothing and fire no callback; and on items that do occur elsewhere
+                for z in fresh(rnd.choice([1, 2])):
+                    E.insert(rnd.randrange(len(E) + 1), (z, z))
+                E.insert(rnd.randrange(len(E) + 1), (sub[0], sub[0]))
             raw = (not last_seg) and ep == nep - 1 and rnd.random() < 0.8    # unions, then clear() at once
             one_rank = rnd.randrange(nranks) if (raw and rnd.random() < 0.5) else None   # only one rank has issued anything
             ops = []
@@ -153,18 +197,15 @@ def gen_script(rnd, nranks, big):
             steps.append(("ops", ops))
             if raw:
                 continue
-            toks += [f"D:{did}", f"N:{did}"]
+            # size()/num_sets() BEFORE the dump: the dump's async_visit would create an item the unions failed to create
+            toks += [f"N:{did}", f"D:{did}"]
             steps.append(("dump", did))
             did += 1
             c = rnd.random()
             if c < 0.35:
-                mode = rnd.choice(["a", "s", "e"])
-                toks += [f"F:{did}:{mode}", f"D:{did}", f"N:{did}"]
-                steps.append(("find", did, mode))
-                steps.append(("dump", did))
-                did += 1
+                find_step(pool)
             elif c < 0.6:
-                toks += [f"A:{did}", f"D:{did}", f"N:{did}"]
+                toks += [f"A:{did}", f"N:{did}", f"D:{did}"]
                 steps.append(("forall", did))
                 steps.append(("dump", did))
                 did += 1
@@ -174,7 +215,7 @@ def gen_script(rnd, nranks, big):
             if POST_CLEAR_NOBARRIER and rnd.random() < 0.4:
                 continue      # next segment's unions follow clear() immediately
             # size()/num_sets() right after clear() must be 0/0 (an empty dump: no item is known any more)
-            toks += [f"D:{did}", f"N:{did}"]
+            toks += [f"N:{did}", f"D:{did}"]
             steps.append(("dump", did))
             did += 1
     return {"tokens": toks, "steps": steps, "universe": universe, "kindmode": kindmode, "families": fam_used, "clears": nseg - 1}
@@ -223,7 +264,7 @@ def run_real(binary, case):
         env["YGM_COMM_ROUTING"] = case["routing"]
     if case.get("buffer") is not None:
         env["YGM_COMM_BUFFER_SIZE_KB"] = case["buffer"]
-    mtok = "M:" + case.get("mode", "w") + (":2" if case.get("two") else "")
+    mtok = "M:" + case.get("mode", "w") + (":2" if case.get("two") else "") + (":str" if case.get("items") == "str" else "")
     return C.run_sim(binary, [mtok] + list(case["tokens"]), nodes=nodes, ppn=ppn, env=env, sim_seed=case["sim_seed"],
                      policy=case["policy"], want_log=False, timeout=120, max_steps=120000, livelock=60000)
 
@@ -288,6 +329,7 @@ def model_tokens(script, nranks):
             toks += ["B", "D"]
             labels.append(("dump", st[1]))
         elif st[0] == "find":
+            known.update(st[3] if len(st) > 3 else [])    # never-unioned items: DSet.compress visits (= inserts (0, item)) them
             toks += ["B", "F:" + ",".join(map(str, sorted(known)))]   # the ranks together ask for every known item
         elif st[0] == "forall":
             toks += ["B", "A"]
@@ -465,6 +507,10 @@ def oracle_run(res, case, script, o, nranks):
         elif st[0] == "find":
             did, mode = st[1], st[2]
             got = o["finds"].get(did, [])
+            prev_known = set(known)
+            for z in (st[3] if len(st) > 3 else []):
+                known.add(z)
+                uf.find(z)        # an item nobody unioned: all_find answers the item itself and creates a singleton
             ks = sorted(known)
             asked = {}
             for r in range(nranks):
@@ -479,10 +525,15 @@ def oracle_run(res, case, script, o, nranks):
                     fail(res, f"all_find {did}: rank {r} did not get an answer for exactly the items it asked for", "dset-find-keys", case,
                          {"asked": sorted(asked.get(r, set()))[:10], "got": sorted(byrank.get(r, {}))[:10]})
             for (it, rep, r) in got:
-                if last_roots is not None and last_roots.get(it) != rep:
+                if it not in prev_known:
+                    if rep != it:
+                        fail(res, f"all_find {did}: item {it} was never passed to a union, its representative must be itself, got {rep}",
+                             "dset-find-unknown-item", case)
+                        break
+                elif last_roots is not None and last_roots.get(it) != rep:
                     fail(res, f"all_find {did}: representative of {it} is {rep}, the root of its tree is {last_roots.get(it)}", "dset-find-rep", case)
                     break
-                if uf.find(rep) != uf.find(it):
+                if rep not in known or uf.find(rep) != uf.find(it):
                     fail(res, f"all_find {did}: representative {rep} of {it} is not a member of its set", "dset-rep-member", case)
                     break
         elif st[0] == "forall":
@@ -632,7 +683,9 @@ def make_case(rnd, idx, one_rank, big):
         other = gen_script(rnd, nranks, False)
         tokens = interleave(rnd, tokens, other["tokens"])
     case = {"layout": list(layout), "routing": routing, "buffer": buffer_, "policy": policy, "sim_seed": rnd.randrange(1, 10 ** 6),
-            "tokens": tokens, "model_seed": rnd.randrange(1, 10 ** 9), "mode": mode, "two": two}
+            "tokens": tokens, "model_seed": rnd.randrange(1, 10 ** 9), "mode": mode, "two": two,
+            # every sixth case runs disjoint_set<std::string> (zero-padded decimals: same order as the numbers) instead of <int64_t>
+            "items": "str" if idx % 6 == 3 else "int"}
     return case, script
 
 
@@ -670,7 +723,7 @@ def script_from_tokens(tokens, cid=0, nranks=None):
         if f[0] == "D":
             steps.append(("dump", int(f[1])))
         elif f[0] == "F":
-            steps.append(("find", int(f[1]), f[2]))
+            steps.append(("find", int(f[1]), f[2], [int(x) for x in f[3].split(",") if x] if len(f) > 3 else []))
         elif f[0] == "A":
             steps.append(("forall", int(f[1])))
         elif f[0] == "K":
@@ -836,6 +889,12 @@ def run(tier, seed, model_ok=True):
         res.count(f"clears={script.get('clears', 0)}")
         res.count("comm=" + case.get("mode", "w").split(":")[0] + ("" if case.get("mode", "w") == "w" else "/" + case["mode"].split(":")[1]))
         res.count("containers=" + ("2" if case.get("two") else "1"))
+        res.count("items=" + case.get("items", "int"))
+        toks_ = case["tokens"]
+        if any(t.split("/")[-1].startswith("F:") and t.count(":") >= 3 for t in toks_):
+            res.count("scripts-with-all_find-of-never-unioned-items")
+        if any(t.split("/")[-1][0] in "ux" and t.split(":")[2] == t.split(":")[3] for t in toks_):
+            res.count("scripts-with-self-loops")
         for f in script["families"]:
             res.count("family=" + f)
         if st in ("ok", "violated"):
